@@ -67,7 +67,7 @@ class SliceOperator(LinearOperator):
         slc_by_ax = []
         for i, d in enumerate(self._domain):
             if new_shape[i] is None or np.all(
-                np.array(self._domain.shape[i]) == np.array(new_shape[i])
+                np.array(d.shape) == np.array(new_shape[i])
             ):
                 tgt += [d]
             elif np.all(np.array(new_shape[i]) <= np.array(d.shape)):
